@@ -638,6 +638,28 @@ def unit_p(arg):
     return acc.result()
 
 
+def unit_v(arg):
+    """(v) every value of the leading octet of a payload body (AUTH method, ID type, CERT encoding, number of selectors, CP
+    type, protocol of a NOTIFY / DELETE ...) x what follows it (nothing, the three reserved octets, a little data), for
+    every payload type of RFC 7296 - also values and types the library has no code for yet"""
+    t, layer = arg
+    acc = Acc()
+    k = KEYS[C_KEY][1]
+    hdr = (C_SPI_I, C_SPI_R, 35, 0x08, 1)
+    for v in range(256):
+        for tname, tail in (('alone', None), ('+reserved', b'\0\0\0'), ('+reserved+1', b'\0\0\0\x07'),
+                            ('+reserved+4', b'\0\0\0abcd'), ('+reserved+20', b'\0\0\0' + bytes(range(20)))):
+            body = bytes([v]) + (tail or b'')
+            if layer == 'clear':
+                data = R.header(C_SPI_I, C_SPI_R, t, 34, 0x08, 0, 28 + 4 + len(body)) + R.gp(0, body)
+                ctxs = ['none']
+            else:
+                data = R.prefixed_sk([], t, R.gp(0, body), k, C_IV, aes_enc, hdr)
+                ctxs = [C_KEY]
+            acc.case('v-first-octet', layer, data, ctxs, dict(right=C_KEY, type=t, value=v, tail=tname))
+    return acc.result()
+
+
 def run_unit(u):
     signal.signal(signal.SIGALRM, _alarm)
     signal.signal(signal.SIGVTALRM, _alarm)
@@ -696,6 +718,9 @@ def units():
     np_ = sum(len(v) for v in R.wellformed_bodies().values())
     for lo in range(0, np_, 60):
         out.append(('p', (lo, lo + 60)))
+    for t in range(33, 49):
+        out.append(('v', (t, 'clear')))
+        out.append(('v', (t, 'plain')))
     nt = len(list(R.text_shapes()))
     for lo in range(0, nt, 64):
         out.append(('t', (lo, lo + 64, 'clear')))
